@@ -2,7 +2,7 @@
    Final statements only; for EVERY callee record and both state machines; stated on the reference machine
    (Model/Parser.v [reference]); C01 relates the implementation's machine to it on quiet runs. *)
 From Coq Require Import ZArith.
-From Httoop Require Import Model.Parser Model.Composer Proofs.ParserFrag Proofs.ParserFraming Proofs.ParserWf Proofs.ParserChunked Corr.Parser.
+From Httoop Require Import Model.Parser Model.Composer Proofs.ParserFrag Proofs.ParserFraming Proofs.ParserWf Proofs.Http1ReaderP Proofs.ParserChunked Corr.Parser.
 
 (* Isolation / pipelining: if [a] is parsed into complete messages leaving the machine idle, then for ANY
    following octets [b] the deliveries are those of [a] followed by exactly the deliveries of [b] parsed
@@ -122,6 +122,16 @@ Theorem C02_pipeline_fragmented_real : forall (C : callees) (k : kind) (ms : lis
   run_keep real C k init frags = (init, map w_delivered ms, None).
 Proof. exact pipeline_fragmented_real. Qed.
 Print Assumptions C02_pipeline_fragmented_real.
+
+(* ... and for the CLIENT machine as implemented NO hypothesis about the run is needed (C01_client_quiet: the client has no 411
+   peek, and the LF fallback cannot fire on a stream of valid messages whose status lines contain no LF): every
+   fragmentation of any pipeline of valid responses is delivered exactly. *)
+Theorem C02_client_pipeline_fragmented_real : forall (C : callees) (ms : list wmsg) (frags : list bytes),
+  Forall (w_ok C Client) ms -> Forall (fun m => no_lf (w_line m) = true) ms ->
+  concat_bytes frags = concat_bytes (map w_wire ms) ->
+  run_keep real C Client init frags = (init, map w_delivered ms, None).
+Proof. exact client_pipeline_fragmented_real. Qed.
+Print Assumptions C02_client_pipeline_fragmented_real.
 
 (* The one configuration in which the client machine must NOT read a body: the message whose framing fields it strips
    ([c_connect]: a successful response to its CONNECT request, RFC 7231 4.3.6) ends with its header section whatever
